@@ -83,8 +83,13 @@ func makeURLKey(u *url.URL) string {
 	result := scheme + "://" + hostPort + path
 
 	// RFC 3986 §6.2.2.2: Normalize percent-encoding in query, if present.
+	// A query that is present and empty ("/p?") is kept: RFC 3986 §6.2.3,
+	// "http://example.com/?" cannot be assumed to be equivalent to
+	// "http://example.com/".
 	if u.RawQuery != "" {
 		result += "?" + normalizePercentEncoding(u.RawQuery)
+	} else if u.ForceQuery {
+		result += "?"
 	}
 
 	// RFC 3986 §6.1 Equivalence: "fragment components (if any) should be excluded from
